@@ -37,6 +37,24 @@ class _UniFromFile:
             return self.conc[sym]["id"]
         return sym
 
+    def conc_filter(self, f):
+        from . import common as C
+
+        out = {}
+        for k in ("ids", "authors"):
+            if k in f:
+                out[k] = [self.conc[s]["id"] if s in self.conc else (C.pubkey(s) if s in self.authors else s) for s in f[k]]
+        if "kinds" in f:
+            out["kinds"] = list(f["kinds"])
+        for name, vals in f.get("tags", {}).items():
+            out["#" + name] = [self.conc_value(v) for v in vals]
+        for k in ("since", "until"):
+            if k in f:
+                out[k] = C.T0 + f[k]
+        if "limit" in f:
+            out["limit"] = f["limit"]
+        return out
+
     def sym_event(self, ev):
         if not isinstance(ev, dict):
             ev = {"id": ev.id, "pubkey": ev.pubkey, "created_at": ev.created_at, "kind": ev.kind, "tags": [list(t) for t in ev.tags],
